@@ -21,9 +21,10 @@ Proof.
   rewrite forallb_forall in H. apply obj_wfb_spec. exact (H _ Hin).
 Qed.
 
-Lemma remotes_ready_local sw mem : forallb (fun ph => negb (ph_class ph)) (os_phases mem) = true -> remotes_ready sw mem.
+Lemma remotes_ok_local sw mem : forallb (fun ph => negb (ph_class ph)) (os_phases mem) = true -> remotes_ok sw mem /\ remotes_recorded sw mem.
 Proof.
-  intros H ph Hin Hc. rewrite forallb_forall in H. specialize (H ph Hin). rewrite Hc in H. discriminate.
+  intros H. rewrite forallb_forall in H.
+  split; [intros ph Hin Hc|intros ph p Hin Hc _]; specialize (H ph Hin); rewrite Hc in H; discriminate.
 Qed.
 
 Definition pass10 (sw : sworld) := objectset_pass false sw KObjectSet 1 10.
@@ -33,12 +34,12 @@ Definition world_after (x : sworld * list sev * sres) : sworld := fst (fst x).
        from 50/60 to 52/61); all premises of [pass_fixpoint] hold; the second pass returns the same world. *)
 Example qx_premises :
   find_set (sw_sets (ex_world 1 S0)) KObjectSet 1 10 = Some S0 /\ is_active S0 /\ os_life S0 <> LPaused /\
-  members_wf (ex_world 1 S0) S0 /\ remotes_ready (ex_world 1 S0) S0 /\
+  members_wf (ex_world 1 S0) S0 /\ (remotes_ok (ex_world 1 S0) S0 /\ remotes_recorded (ex_world 1 S0) S0) /\
   snd (pass10 (ex_world 1 S0)) = SDone false /\
   w_rv (sw_w (world_after (pass10 (ex_world 1 S0)))) = 52 /\ w_uid (sw_w (world_after (pass10 (ex_world 1 S0)))) = 61.
 Proof.
   split; [reflexivity|]. split; [repeat split; discriminate|]. split; [discriminate|].
-  split; [apply members_wf_store; vm_compute; reflexivity|]. split; [apply remotes_ready_local; reflexivity|].
+  split; [apply members_wf_store; vm_compute; reflexivity|]. split; [apply remotes_ok_local; reflexivity|].
   repeat split; vm_compute; reflexivity.
 Qed.
 
@@ -54,9 +55,9 @@ Example qx_instance :
   exists st' evs2, find_set (sw_sets sw1) KObjectSet 1 10 = Some st' /\
     pass10 sw1 = (sw1, evs2, SDone false) /\ Forall (noop_sev st') evs2.
 Proof.
-  destruct qx_premises as (H1 & H2 & H3 & H5 & H6 & H7 & _).
+  destruct qx_premises as (H1 & H2 & H3 & H5 & (H6 & H6') & H7 & _).
   destruct (pass10 (ex_world 1 S0)) as [[sw1 evs1] r1] eqn:E. cbn [world_after fst snd] in *. subst r1.
-  destruct (pass_fixpoint false (ex_world 1 S0) KObjectSet 1 10 S0 sw1 evs1 (SDone false) H1 H2 H3 H5 H6 E)
+  destruct (pass_fixpoint false (ex_world 1 S0) KObjectSet 1 10 S0 sw1 evs1 (SDone false) H1 H2 H3 H5 H6 (or_introl H6') E)
     as (st' & evs2 & Hf & Hrun & _ & Hn).
   exists st', evs2. split; [exact Hf|]. split; [exact Hrun|]. apply Hn. discriminate.
 Qed.
@@ -88,16 +89,35 @@ Definition qd_phase_obj : osphase :=
 
 (** 3a. phase object present, controlled, in sync, reference recorded: premises met, the pass reports Available=True
         (first pass writes the status), the next pass changes nothing. *)
+Lemma qd_ok rem : remotes_ok (qd_world [qd_phase_obj] (qd_set rem)) (qd_set rem).
+Proof. intros ph [<-|[<-|[]]] Hc; [discriminate|]. exists qd_phase_obj. vm_compute. repeat split; reflexivity. Qed.
+
 Example qd_premises :
   let sw := qd_world [qd_phase_obj] (qd_set [(10002, 70)]) in
-  remotes_ready sw (qd_set [(10002, 70)]) /\ members_wf sw (qd_set [(10002, 70)]) /\
+  remotes_ok sw (qd_set [(10002, 70)]) /\ remotes_recorded sw (qd_set [(10002, 70)]) /\ members_wf sw (qd_set [(10002, 70)]) /\
   snd (pass10 sw) = SDone false /\ world_after (pass10 sw) <> sw /\
   world_after (pass10 (world_after (pass10 sw))) = world_after (pass10 sw).
 Proof.
-  cbv zeta. split.
-  - intros ph [<-|[<-|[]]] Hc; [discriminate|]. exists qd_phase_obj. vm_compute. repeat split; reflexivity.
+  cbv zeta. split; [apply qd_ok|]. split.
+  - intros ph p [<-|[<-|[]]] Hc (cur & Hf & ->); [discriminate|]. vm_compute in Hf. injection Hf as <-. vm_compute. reflexivity.
   - split; [apply members_wf_store; vm_compute; reflexivity|]. split; [vm_compute; reflexivity|].
     split; [vm_compute; discriminate|vm_compute; reflexivity].
+Qed.
+
+(** 3a'. the same with the reference NOT yet recorded (and no self-reference in spec.previous): the first pass records
+         it with the status it writes, the next pass changes nothing. *)
+Example qd_recording_pass :
+  let sw := qd_world [qd_phase_obj] (qd_set []) in
+  remotes_ok sw (qd_set []) /\ not_own_prev (qd_set []) /\ ~ remotes_recorded sw (qd_set []) /\
+  map os_remotes (sw_sets (world_after (pass10 sw))) = [[(10002, 70)]] /\
+  world_after (pass10 (world_after (pass10 sw))) = world_after (pass10 sw).
+Proof.
+  cbv zeta. split; [apply qd_ok|]. split; [intros []|]. split.
+  - intros H. specialize (H (nth 1 qd_phases (Build_phase 0 false [])) (10002, 70) (or_intror (or_introl eq_refl)) eq_refl).
+    assert (Hr : remote_ref [qd_phase_obj] (qd_set []) (nth 1 qd_phases (Build_phase 0 false [])) (10002, 70))
+      by (exists qd_phase_obj; vm_compute; split; reflexivity).
+    specialize (H Hr). vm_compute in H. discriminate.
+  - vm_compute. split; reflexivity.
 Qed.
 
 (** 3b. REFUTED without the premise on delegated phases: the pass that CREATES the phase object is not a fixpoint of
@@ -119,13 +139,47 @@ Definition qf_set : oset :=
      os_remotes := [] |}.
 Example qf_fresh_set :
   let sw := ex_empty qf_set in
-  members_wf sw qf_set /\ remotes_ready sw qf_set /\ is_active qf_set /\
+  members_wf sw qf_set /\ (remotes_ok sw qf_set /\ remotes_recorded sw qf_set) /\ is_active qf_set /\
   metas (snd (fst (pass10 sw))) = [MFinalizer true true;
      MStatus 1 [{| cd_type := CInTransition; cd_status := STrue; cd_reason := RInTransition; cd_gen := 1 |};
                 {| cd_type := CAvailable; cd_status := SFalse; cd_reason := RProbeFailure; cd_gen := 1 |}]
              [ex_key 1 1; ex_key 2 2] [] (Some 1) true] /\
   world_after (pass10 (world_after (pass10 sw))) = world_after (pass10 sw).
 Proof.
-  cbv zeta. split; [apply members_wf_store; reflexivity|]. split; [apply remotes_ready_local; reflexivity|].
+  cbv zeta. split; [apply members_wf_store; reflexivity|]. split; [apply remotes_ok_local; reflexivity|].
   split; [repeat split; discriminate|]. vm_compute. split; reflexivity.
+Qed.
+
+(** ** 5. REFUTED without [remotes_recorded \/ not_own_prev]: an ObjectSet that names ITSELF in spec.previous and whose
+       delegated phase is not yet recorded in status.remotePhases. Its local phase lists an object controlled by its own
+       phase object. Pass 1 refuses the object (not owned by a previous revision: the stored status knows no remote
+       phase yet) and, with the CollisionDetected report, records the remote phase; pass 2 reads the ObjectSet as its
+       own previous revision, now with that remote phase, and ADOPTS the object: the world changes. *)
+Definition qs_set : oset :=
+  {| os_id := ex_id; os_rv := 5; os_gen := 1; os_deleting := false; os_fin := true; os_orphan := false; os_pkg := 0;
+     os_life := LActive;
+     os_phases := [ {| ph_name := 2; ph_class := true; ph_objects := [ex_po 1 3] |};
+                    {| ph_name := 1; ph_class := false; ph_objects := [ex_po 1 1] |} ];
+     os_prev := [10]; os_revision := 1; os_conds := []; os_ctrlof := []; os_remotes := [] |}.
+Definition qs_obj : obj :=
+  {| o_uid := 21; o_rv := 21; o_gen := 1; o_owners := [{| r_kind := KObjectSetPhase; r_name := 10002; r_uid := 70; r_ctrl := true |}];
+     o_aowners := []; o_rev := RevNone; o_cache := true; o_pkg := 0; o_body := 1; o_avail := 0; o_obsgen := None;
+     o_deleting := false; o_fin := false |}.
+Definition qs_world : sworld :=
+  {| sw_w := {| w_store := [(ex_key 1 1, qs_obj)]; w_rv := 50; w_uid := 60 |}; sw_sets := [qs_set]; sw_phases := [qd_phase_obj]; sw_nss := [] |}.
+
+Example qs_self_previous_not_fixpoint :
+  find_set (sw_sets qs_world) KObjectSet 1 10 = Some qs_set /\ is_active qs_set /\ os_life qs_set <> LPaused /\
+  members_wf qs_world qs_set /\ remotes_ok qs_world qs_set /\ ~ not_own_prev qs_set /\
+  let sw1 := world_after (pass10 qs_world) in
+  metas (snd (fst (pass10 qs_world))) =
+    [MStatus 1 [{| cd_type := CAvailable; cd_status := SFalse; cd_reason := RCollisionDetected; cd_gen := 1 |}] [] [(10002, 70)] None true] /\
+  world_after (pass10 sw1) <> sw1 /\
+  map ev_key (member_evs (snd (fst (pass10 sw1)))) = [ex_key 1 1] /\ w_rv (sw_w (world_after (pass10 sw1))) = w_rv (sw_w sw1) + 2.
+Proof.
+  split; [reflexivity|]. split; [repeat split; discriminate|]. split; [discriminate|].
+  split; [apply members_wf_store; vm_compute; reflexivity|].
+  split. { intros ph [<-|[<-|[]]] Hc; [|discriminate]. exists qd_phase_obj. vm_compute. repeat split; reflexivity. }
+  split. { intros H. apply H. now left. }
+  vm_compute. split; [reflexivity|]. split; [discriminate|]. split; reflexivity.
 Qed.
